@@ -2,6 +2,7 @@ import IastModel.Lemmas.CovLemmas
 import IastModel.Lemmas.NotBin
 import IastModel.Lemmas.CovAssign
 import IastModel.Lemmas.CovRecv
+import IastModel.Lemmas.ErOc
 namespace IastModel
 open Node
 
@@ -95,8 +96,27 @@ theorem visit_cover (cfg : Config) (ok : String → Bool) (hcfg : CfgOk ok cfg) 
       refine ⟨by rw [R_eq]; simp [reqOwn, visitedKids], ?_⟩
       cases b <;> exact ⟨rfl, by intro _ h; cases h⟩
     | optChain o b sp =>
+      have hR : R cfg d sp0 (.optChain o b sp) ≤ cq (qAt d sp0) (visit cfg (f + 1) root (.optChain o b sp) s).1 := by
+        by_cases hno : noOpt cfg (.optChain o b sp) = true
+        · -- a chain that is not lowered is handed back as it is, and walked through
+          simp only [visit, run_bind] at hfo ⊢
+          have hid := toDdCond_id cfg f (.optChain o b sp) s hno
+          generalize toDdCond cfg f (.optChain o b sp) s = C at hid hfo
+          obtain ⟨⟨e', res⟩, s1⟩ := C
+          obtain ⟨hid1, hid2⟩ := hid
+          simp only [Prod.mk.injEq] at hid1
+          obtain ⟨rfl, rfl⟩ := hid1
+          simp only [Option.getD_none] at hfo ⊢
+          have hs1 : StOk s1 := by intro hc; exact hs (by rw [← hid2.2.2.2.1]; exact hc)
+          have hfo1 := (finish_TS root _ _).fo hfo
+          rw [finish_fst]
+          have := hgen false (.optChain o b sp) s1 h0 ht hs1 hfo1
+          rw [R_eq]
+          simp only [reqOwn, visitedKids, hno, if_true, Nat.zero_add]
+          simpa [kids] using this
+        · rw [R_eq]; simp [reqOwn, visitedKids, hno]
       simp only [visit, run_bind]
-      refine ⟨by rw [R_eq]; simp [reqOwn, visitedKids], ?_⟩
+      refine ⟨by simpa only [visit, run_bind] using hR, ?_⟩
       have hl := toDdCond_leaf cfg f (.optChain o b sp) s rfl
       have hn := toDdCond_nbin cfg f (.optChain o b sp) s rfl
       generalize toDdCond cfg f (.optChain o b sp) s = C at hl hn
